@@ -97,7 +97,7 @@ def check_C03(A: Analysis, tier):
             if label in REJECT:
                 raised_inside.add(label)
                 target = rb if fn.qual == Q("_store_hashstore_refs_files") else rc
-                if fn.qual not in (Q("_store_hashstore_refs_files"), Q("tag_object"), Q("store_object")):
+                if fn.qual not in (Q("_store_hashstore_refs_files"), A.impl_q("tag_object"), A.impl_q("store_object")):
                     continue
                 target.ob()
                 target.inst(f"{fn.qual}:{h.lineno} handler for {label}")
@@ -417,7 +417,7 @@ def check_C05(A: Analysis, tier):
     for m in ALL_MODES:
         d = A.api("delete_object", m)
         t = A.api("tag_object", m)
-        dl = {lab for (fn, h, lab, ctx, o) in d.handler_runs if fn.qual == Q("delete_object")}
+        dl = {lab for (fn, h, lab, ctx, o) in d.handler_runs if fn.qual == A.impl_q("delete_object")}
         tl = {lab for (fn, h, lab, ctx, o) in t.handler_runs if fn.qual == Q("_untag_object")}
         for lab in sorted(dl & tl):
             if lab not in A.p.exc_classes:
@@ -427,7 +427,7 @@ def check_C05(A: Analysis, tier):
             ta = actions(t.events, lab, lambda ev: Q("_untag_object") in ev.ctx)
             rd.inst(f"{lab} [{m}]: delete_object {sorted(da)} / _untag_object {sorted(ta)}")
             if da != ta:
-                h = [h for (fn, h, l2, ctx, o) in d.handler_runs if fn.qual == Q("delete_object") and l2 == lab][0]
+                h = [h for (fn, h, l2, ctx, o) in d.handler_runs if fn.qual == A.impl_q("delete_object") and l2 == lab][0]
                 rd.fail(Q("delete_object"), f"except {lab}", f"clean-up for {lab} differs between the two siblings: delete_object does "
                         f"{sorted(da)}, the roll-back does {sorted(ta)}", A.p.loc(A.p.func(Q("delete_object")), h))
     rules.append(rd)
@@ -587,7 +587,7 @@ def check_C10(A: Analysis, tier):
                     if i == 0 and c.cls == "OBJ":
                         need(ev, ("prim", "RENAME", 0, "CIDREFS"), "the object is renamed away before its (empty) cid list")
         for c in it.calls:
-            if c["callee"] == Q("delete_metadata") and c["ctx"] == (Q("delete_object"),) and not c["state"].handling:
+            if c["callee"] == Q("delete_metadata") and c["ctx"][-1] == A.impl_q("delete_object") and not c["state"].handling:
                 ra.ob()
                 ra.inst("delete_object: delete_metadata(pid) after the reference files")
                 if ("prim", "RENAME", 0, "PIDREFS") not in c["state"].done:
@@ -612,7 +612,7 @@ def check_C10(A: Analysis, tier):
                         out |= {norm(e) for e in (h.type.elts if isinstance(h.type, ast.Tuple) else [h.type])}
         return out
 
-    hd, hu = handled(Q("delete_object")), handled(Q("_untag_object"))
+    hd, hu = handled(A.impl_q("delete_object")), handled(Q("_untag_object"))
     for cls in sorted(raised):
         rb.inst(f"_find_object raises {cls}")
         rb.ob(2)
@@ -628,7 +628,7 @@ def check_C10(A: Analysis, tier):
     for m in ALL_MODES:
         it = A.api("delete_object", m)
         for (fn, h, lab, ctx, o) in it.handler_runs:
-            if fn.qual != Q("delete_object") or lab not in A.p.exc_classes:
+            if fn.qual != A.impl_q("delete_object") or lab not in A.p.exc_classes:
                 continue
             rc.ob()
             rc.inst(f"delete_object [{m}] except {lab}")
